@@ -13,15 +13,27 @@ PROPS = ["C20/Props.v"]
 ALLOWED_AXIOMS = []
 IMPL_TIMEOUT = 5.0
 COQ_SHARD = 80   # printed observations of long call sequences overflow coqc's stack in bigger files
-RULE = ("boundary values 0, 2^128-1, 57^k, 57^k +-1, random 128-bit values; every single-digit string "
+RULE = ("single calls: boundary values 0, 2^128-1, 57^k, 57^k +-1, random 128-bit values; every single-digit string "
         "(22 positions x 57 letters); lengths 0/21/23; excluded alphanumerics, punctuation and non-ASCII at "
         "every position; encodings of numbers in [2^128, 57^22); canonical/braces/urn/32-hex forms; non-str "
-        "arguments.  Non-trivial = distinct case that reaches the codec (to_short of a non-zero value, "
-        "from_short of a 22-character string, or from_str).")
+        "arguments.  SEQUENCES of calls made in one process on a freshly loaded module (kind seq:<family>): a string then "
+        "its letter-case variants (lower/upper/swapcase/casefold/title, single flips) in both orders and through both "
+        "decoders; a string then decorated/truncated/extended/unicode-folded relatives (blanks, braces, urn:, dashes, "
+        "zero-width, fullwidth, look-alike letters, padding letter added/removed/shifted); the same call 2-3 times; valid "
+        "then invalid and back; every form of one uuid through both decoders and the encoder; encode then decode (and "
+        "relatives of the encoder's output); uuids sharing low/high bits or hash(); strings at edit distance 1-2, rotations; "
+        "mixed histories of 6-12 calls over a small pool; histories of ~460 calls with 300 distinct arguments for one "
+        "function (bounded memories evict), oldest arguments asked again.  Each call of a sequence is also run ALONE on a "
+        "freshly loaded module.  Non-trivial = distinct case that reaches the codec (to_short of a non-zero value, "
+        "from_short of a 22-character string, from_str, or a sequence of >= 2 calls).")
 TRUSTED_BASE = [
     "uuid.UUID(int=n) raises ValueError exactly when not 0 <= n < 2**128 (CPython Lib/uuid.py), uuid.UUID(str) "
     "is an oracle value passed to the model for uuid_from_str and assumed to reject every string shorter than 32 characters",
     "gen/C20_Consts.v: _ALPHABET, _SHORT_GUID_LEN and the exception classes caught around the decoder are read from ak/short_uuid.py by harness/props/c20.py:gen_consts (ast, fail-closed)",
+    "the model of a call sequence is the single-call model applied to each call (eval_seq = map eval_call): that ak/short_uuid.py "
+    "keeps no state between calls is NOT proved from the source, it is checked by running the generated call sequences "
+    "(and every call alone) against the implementation; importlib.reload(ak.short_uuid) is taken to restore the state "
+    "the module has right after import (state kept outside that module would survive it)",
 ]
 ASSUMPTIONS = ["arguments of uuid_to_short_str are uuid.UUID objects (0 <= int < 2**128)"]
 MODELLED = "ak/short_uuid.py completely (uuid.UUID itself is trusted)"
@@ -657,9 +669,13 @@ def outcome(case, obs):
 TECHNIQUE = "Coq proof (induction over digit lists / fuel) on a hand-written Gallina model + per-run correspondence check (vm_compute vs implementation) + constants regenerated from the source"
 LEVEL_TEXT = ("Full: roundtrip, shape, injective, accept_iff, surjective_on_valid, reject_value_error, from_str_both are "
               "proved in Coq for ALL 2^128 uuids and ALL strings (unbounded lists of code points) about the model of "
-              "ak/short_uuid.py; alphabet, length and the caught exception classes are re-read from the source on every "
-              "run, so NoDup alphabet, 2^128 <= 57^22 and 'KeyError is translated' are re-proved against the current "
-              "code; the model is compared with the implementation on ~2300 boundary/exhaustive-per-digit cases per run.")
+              "ak/short_uuid.py; calls_independent, seq_decode_exact, seq_decode_injective, seq_encode_decode lift them to "
+              "arbitrary histories of calls (the model keeps no state, so these are corollaries; their content for the code "
+              "lies in the correspondence on call sequences); alphabet, length and the caught exception classes are re-read "
+              "from the source on every run, so NoDup alphabet, 2^128 <= 57^22 and 'KeyError is translated' are re-proved "
+              "against the current code; the model is compared with the implementation on ~2300 boundary/exhaustive-per-digit "
+              "single calls and ~1300 call sequences (~7000 calls) per run.  Tested only (correspondence + oracle, not proved "
+              "from the source): that the implementation's answer to a call does not depend on earlier calls.")
 LEVEL_NOTE = ("Trusted: Coq kernel + vm_compute; the hand model's fidelity (checked by correspondence, not proved); "
               "uuid.UUID(int=)/uuid.UUID(str) of the standard library; the ast extractor and harness. "
               "Print Assumptions: closed under the global context for every theorem.")
